@@ -104,9 +104,10 @@ def gen_case(draw, close=False):
         if not spec["segments"]:
             continue
         if draw(st.integers(0, 3)) == 0:
-            spec["clips"] = ["".join(draw(st.sampled_from("ACGT")) for _ in range(draw(st.integers(0, 5)))),
-                             "".join(draw(st.sampled_from("ACGT")) for _ in range(draw(st.integers(0, 5)))),
-                             draw(st.sampled_from([0, 0, 4])), draw(st.sampled_from([0, 0, 3]))]
+            # soft clips up to 30 bases, hard clips up to the length of a clipped-off supplementary part
+            spec["clips"] = ["".join(draw(st.sampled_from("ACGT")) for _ in range(draw(st.sampled_from([0, 1, 3, 5, 12, 30])))),
+                             "".join(draw(st.sampled_from("ACGT")) for _ in range(draw(st.sampled_from([0, 1, 3, 5, 12, 30])))),
+                             draw(st.sampled_from([0, 0, 4, 25, 120])), draw(st.sampled_from([0, 0, 3, 40]))]
         if draw(st.integers(0, 5)) == 0:
             spec["eqx"] = True
         specs.append(spec)
